@@ -9,8 +9,8 @@
 EXTENDS Operator
 CONSTANTS MaxCyc, MaxBurn, MaxCap, MaxStack, MaxLevel, Families, EnvD
 
-Cfg(steps, sc, sn, ifs, dcyc, tight, cap, skip) ==
-    [steps |-> steps, sc |-> sc, sn |-> sn, ifs |-> ifs, dcyc |-> dcyc, tight |-> tight, cap |-> cap, skip |-> skip]
+Cfg(steps, sc, sn, ifs, dcyc, tight, cap, skip, bolset) ==
+    [steps |-> steps, sc |-> sc, sn |-> sn, ifs |-> ifs, dcyc |-> dcyc, tight |-> tight, cap |-> cap, skip |-> skip, bolset |-> bolset]
 
 Hists(maxc, maxb) == UNION {[1..k -> 0..maxb] : k \in 1..maxc}
 Starts(steps) == UNION {{<<c, n>> : n \in 0..steps[c + 1]} : c \in 0..(Len(steps) - 1)}
@@ -19,8 +19,11 @@ Couplings(k) == {[tight |-> FALSE, cap |-> 1, skip |-> NoSkip(k)]} \cup
                 {[tight |-> TRUE, cap |-> cap, skip |-> sk] : cap \in 0..MaxCap, sk \in [1..k -> BOOLEAN]}
 
 LStack == <<Iface(TRUE, FALSE, TRUE, FALSE, TRUE, TRUE), Iface(TRUE, FALSE, FALSE, TRUE, TRUE, FALSE)>>
-ConfigsL == UNION {UNION {{Cfg(h, st[1], st[2], LStack, 1, cp.tight, cp.cap, cp.skip) : cp \in Couplings(Len(h))}
-                          : st \in Starts(h)} : h \in Hists(MaxCyc, MaxBurn)}
+\* who puts the restart point in place: 0 = already there at entry; 1 = the BOL hook of interface 1; 2 = the BOL hook of interface
+\* 2, which is deferred and therefore never called at BOL (the run then starts at (0, 0)); 2 is explored with coupling off only
+LSetters(st, cp) == IF st = <<0, 0>> THEN {0} ELSE IF cp.tight THEN {0, 1} ELSE {0, 1, 2}
+ConfigsL == UNION {UNION {UNION {{Cfg(h, st[1], st[2], LStack, 1, cp.tight, cp.cap, cp.skip, b) : b \in LSetters(st, cp)}
+                                 : cp \in Couplings(Len(h))} : st \in Starts(h)} : h \in Hists(MaxCyc, MaxBurn)}
 
 \* position p of a D stack: the four dispatch flags are free; the first interface is coupled and halting when EnvD (exhaustive
 \* configs; the emission configs switch it off so that a D configuration has exactly one run)
@@ -32,8 +35,11 @@ DHist == <<1, 0>>
 \* stacks of three are explored from the start of the run with deferral cycle 1 only (4096 stacks)
 DStarts(m) == IF m <= 2 THEN {<<0, 0>>, <<0, 1>>, <<1, 0>>} ELSE {<<0, 0>>}
 DDefer(m)  == IF m <= 2 THEN 0..2 ELSE {1}
-ConfigsD == UNION {UNION {{Cfg(DHist, st[1], st[2], s, d, TRUE, 1, NoSkip(2)) : s \in DStacks(m), d \in DDefer(m)}
-                          : st \in DStarts(m)} : m \in 1..MaxStack}
+\* the restart point is also set by the BOL hook of the LAST interface of the stack (so the hooks before it see (0, 0)), with
+\* deferral cycle 1; whether that hook is called at BOL depends on its flags
+DSetters(st, m, d) == IF st # <<0, 0>> /\ d = 1 /\ m <= 2 THEN {0, m} ELSE {0}
+ConfigsD == UNION {UNION {UNION {{Cfg(DHist, st[1], st[2], s, d, TRUE, 1, NoSkip(2), b) : b \in DSetters(st, m, d)}
+                                 : s \in DStacks(m), d \in DDefer(m)} : st \in DStarts(m)} : m \in 1..MaxStack}
 
 McConfigs == (IF "L" \in Families THEN ConfigsL ELSE {}) \cup (IF "D" \in Families THEN ConfigsD ELSE {})
 
